@@ -483,7 +483,8 @@ def around(a, decimals=0, out=None):
     )
     if getattr(out, "units", None) is not None:
         out.units = ret_units
-    return unyt_array(res, ret_units, bypass_validation=True)
+    ret_cls = unyt_quantity if res.ndim == 0 else unyt_array
+    return ret_cls(res, ret_units, bypass_validation=True)
 
 
 @implements(np.block)
